@@ -52,7 +52,7 @@ def run(ctx):
     if not quick:
         configs += [C(3, 3), C(4, 2), C(2, 4), C(3, 2, Fan=2), C(3, 2, NJ=2), C(2, 2, NF=1, FT=2), C(2, 2, NF=2, FT=2), C(1, 3, Fan=2, NJ=2)]
     procs = [1, 2, 16] if quick else [1, 2, 4, 16]
-    seeds = range(2) if quick else range(6)
+    seeds = range(2) if quick else range(4)
     reqs = []
     for ci, c in enumerate(configs):
         for p in procs:
@@ -183,7 +183,7 @@ def run(ctx):
         lines = []
         # every run's rows are checked below; protocol traces are validated for a bounded number of runs per
         # configuration (the forward-jump configurations have the largest silent state spaces)
-        cap = (8 if c["NF"] == 2 else 12) if quick else (10 if c["NF"] == 2 else 24)
+        cap = (8 if c["NF"] == 2 else 12) if quick else (6 if c["NF"] == 2 else 12)
         allv = items[:: max(1, len(items) // cap)][:cap]
         # one TLC job per chunk of traces: the silent state space of the larger configurations makes a trace cost
         # up to a minute on a loaded machine, and every job has its own deadline
